@@ -579,7 +579,7 @@ func Run(c Case) int {
 			st := state()
 			return st == lime.SessionStateFinished || st == lime.SessionStateFailed
 		}, 4*time.Second)
-		l.log(Event{K: "peerstate", G: name, Kind: string(state())})
+		l.log(Event{K: "peerstate", G: name, Kind: string(state()), Res: cfg.Transport})
 		if settle(streams, time.Second) {
 			l.log(Event{K: "streams", G: name})
 		}
